@@ -367,6 +367,11 @@ def run(ctx, R, tier):
             accepted = tg.elts[0].id if isinstance(tg, ast.Tuple) and isinstance(tg.elts[0], ast.Name) else (tg.id if isinstance(tg, ast.Name) else None)
         sts = [c for c in walk_no_nested(g.node) if isinstance(c, ast.Call) and isinstance(c.func, ast.Attribute) and c.func.attr == "settimeout"]
         ok = accepted is not None and len(sts) >= 1 and all(unparse(c.func.value) == accepted and c.args and unparse(c.args[0]).endswith("COMMTIMEOUT") for c in sts)
+        # ... and stays on it: setblocking(True) IS settimeout(None), setblocking(False) is settimeout(0.0) - either one after the settimeout replaces the configured timeout
+        undone = [c for c in walk_no_nested(g.node) if isinstance(c, ast.Call) and isinstance(c.func, ast.Attribute) and c.func.attr == "setblocking" and unparse(c.func.value) == accepted]
+        R.check(not undone, "C05-R1b", "%s|timeout-not-replaced-by-setblocking" % g.name, "nothing switches the accepted socket's blocking mode after the timeout was put on it", g.loc(undone[0]) if undone else g.loc(),
+                "`%s` on the accepted connection replaces the timeout that settimeout(config.COMMTIMEOUT) had set (setblocking(True) is settimeout(None)): a client that stalls in the "
+                "middle of a message holds its worker for as long as it likes" % (unparse(undone[0], 50) if undone else ""))
         R.check(ok, "C05-R1b", "%s|timeout-on-the-accepted-socket" % g.name, "config.COMMTIMEOUT is set on the socket that accept() returned", g.loc(sts[0]) if sts else g.loc(),
                 "settimeout is applied to `%s`, not to the accepted connection `%s`: with COMMTIMEOUT configured a client that stops in the middle of a message holds its worker "
                 "(or the refusing accept loop) for ever" % (unparse(sts[0].func.value) if sts else "?", accepted))
